@@ -153,6 +153,7 @@ func scenario(id string, seed uint64) runner.Result {
 	x := prog.New(cfg, scripts)
 	defer x.Rig.Teardown()
 	var park *director.Park
+	cancelled := map[uint64]bool{}
 	if point != "" {
 		park = x.Rig.Dir.ParkAt(point, x.Rig.Pair.A, 1)
 	} else if r.Intn(2) == 0 {
@@ -172,6 +173,7 @@ func scenario(id string, seed uint64) runner.Result {
 			for _, l := range x.Logs() {
 				if l.Cancel != nil && !l.ClientDone {
 					l.Cancel()
+					cancelled[l.Script.Tag] = true
 				}
 			}
 			census.Quiesce(rig.Watchdog)
@@ -183,9 +185,20 @@ func scenario(id string, seed uint64) runner.Result {
 		return runner.Inconcl(id, "watchdog: "+hist)
 	}
 	_, snap := census.Quiesce(rig.Watchdog)
+	stuckCancelled := ""
 	if st != "ready" {
-		res := runner.Inconcl(id, "a client call of the workload itself never returned (C04/C05 territory): "+hist)
-		return res
+		// The property counts an RPC as ended on the client side when its call returned or its
+		// stream was closed or cancelled. A call that is still blocked although its context was
+		// cancelled is therefore no excuse for the connection: the probe is still owed progress.
+		for _, l := range x.Logs() {
+			if started, done := l.ClientState(); started && !done {
+				if !cancelled[l.Script.Tag] {
+					return runner.Inconcl(id, "a client call of the workload itself never returned (C04/C05 territory): "+hist)
+				}
+				stuckCancelled += fmt.Sprintf(" rpc%d", l.Script.Tag)
+			}
+		}
+		hist += " | cancelled call(s) still blocked at quiescence:" + stuckCancelled
 	}
 	for _, l := range x.Logs() {
 		if l.HandlerRan && !l.HandlerDone {
@@ -199,6 +212,9 @@ func scenario(id string, seed uint64) runner.Result {
 	key := "wedge:" + classify(scripts[len(scripts)-1], point)
 	if len(scripts) > 1 {
 		key = "wedge:" + classify(scripts[0], point) + " ; " + classify(scripts[1], "")
+	}
+	if stuckCancelled != "" {
+		key += " (cancelled call still blocked)"
 	}
 	res := runner.Hold(id, hist, true)
 	res.Events = int64(len(scripts) + 1)
